@@ -107,10 +107,10 @@ func (otx Transaction) View(spec *Spec) (*TransactionView, error) {
 }
 
 type TransactionView struct {
-	*UnionView
+	*BasicListView
 }
 
 func AsTransaction(v View, err error) (*TransactionView, error) {
-	c, err := AsUnion(v, err)
+	c, err := AsBasicList(v, err)
 	return &TransactionView{c}, err
 }
